@@ -116,19 +116,21 @@ class C13Oracle(worldprop.Oracle):
 
 
 def same_calls_texts(ops, hashseed):
-    """Run the program in a fresh interpreter (possibly another PYTHONHASHSEED) and
-    return the text exports of every document."""
+    """In a fresh interpreter (possibly under another PYTHONHASHSEED) build the documents of the program twice, by
+    the same calls, and return the text exports of both builds.  (Texts of different interpreters are not compared:
+    the iteration order of Python sets of strings changes with the hash seed, and the property speaks of two
+    documents built by the same calls, not of two processes.)"""
     code = (
         "import sys, json\n"
         "from harness import impl as I\n"
         "ops = json.load(sys.stdin)\n"
-        "im = I.Impl()\n"
-        "for o in ops:\n"
-        "    if o[0] != 'ObserveAll': im.step(o)\n"
-        "out = []\n"
-        "for d in im.docs:\n"
-        "    out.append([d.serialize(format='json'), d.serialize(format='xml'), d.get_provn()])\n"
-        "print(json.dumps(out))\n")
+        "builds = []\n"
+        "for k in range(2):\n"
+        "    im = I.Impl()\n"
+        "    for o in ops:\n"
+        "        if o[0] != 'ObserveAll': im.step(o)\n"
+        "    builds.append([[d.serialize(format='json'), d.serialize(format='xml'), d.get_provn()] for d in im.docs])\n"
+        "print(json.dumps(builds))\n")
     env = common.impl_env({"PYTHONHASHSEED": str(hashseed)})
     p = subprocess.run([common.PY, "-c", code], input=json.dumps(ops), capture_output=True, text=True, env=env, timeout=120)
     lines = [l for l in p.stdout.split("\n") if l.startswith("[")]
@@ -137,6 +139,32 @@ def same_calls_texts(ops, hashseed):
 
 def nontrivial(ops):
     return sum(1 for o in ops if o[0] in ("NewRecord", "Factory")) >= 2
+
+
+def fixed_programs():
+    """documents on which exporters have real work to do: records sharing an identifier with different attribute values
+    (unified, graph and DOT merge them), at document level and in a bundle, unset optional arguments, multi-valued
+    attributes"""
+    EXU = "http://example.org/"
+    PROVU = "http://www.w3.org/ns/prov#"
+    out = []
+    for in_bundle in (False, True):
+        p = [["NewDoc"], ["AddNs", ["d", "0"], "ex", EXU]]
+        c = ["d", "0"]
+        if in_bundle:
+            p.append(["NewBundle", "0", ["S", "ex:b"]])
+            c = ["b", "0", "0"]
+        p += [["NewRecord", c, "Entity", ["S", "ex:e"], [[["S", "ex:k"], ["str", "one"]], [["S", "prov:type"], ["qn", "ex", EXU, "T1"]]]],
+              ["NewRecord", c, "Entity", ["S", "ex:e"], [[["S", "ex:k"], ["str", "two"]], [["S", "prov:label"], ["str", "l2"]],
+                                                         [["S", "prov:type"], ["qn", "ex", EXU, "T2"]]]],
+              ["NewRecord", c, "Activity", ["S", "ex:a"], []],
+              ["NewRecord", c, "Activity", ["S", "ex:a"], [[["Q", "prov", PROVU, "startTime"], ["time", "2012", "3", "31", "9", "21", "0", "0", "none"]]]],
+              ["NewRecord", c, "Generation", ["S", "ex:g"], [[["Q", "prov", PROVU, "entity"], ["str", "ex:e"]], [["S", "ex:k"], ["int", "1"]]]],
+              ["NewRecord", c, "Generation", ["S", "ex:g"], [[["Q", "prov", PROVU, "entity"], ["str", "ex:e"]],
+                                                             [["Q", "prov", PROVU, "activity"], ["str", "ex:a"]], [["S", "ex:k"], ["int", "2"]]]],
+              ["NewRecord", c, "Usage", "none", [[["Q", "prov", PROVU, "activity"], ["str", "ex:a"]], [["Q", "prov", PROVU, "entity"], ["str", "ex:undeclared"]]]]]
+        out.append(p)
+    return out
 
 
 def run(tier, seed, log, model_runs=True, enlarged=False):
@@ -150,29 +178,31 @@ def run(tier, seed, log, model_runs=True, enlarged=False):
                                   "called in a program-dependent order with repetitions; after every call the strict content, "
                                   "record order, registered namespaces and default namespace of every document must be "
                                   "unchanged, repeated text exports identical, RDF isomorphic; same-calls determinism: a sample "
-                                  "of programs is re-run in fresh interpreters (thorough: under other PYTHONHASHSEEDs)",
+                                  "of programs is built twice in one fresh interpreter and the texts of the two builds compared "
+                                  "(thorough: under three PYTHONHASHSEEDs)",
+                        extra_cases=fixed_programs(),
                         theorem_note="C13_exports_frame / C12_frame over Interp.step")
     # two documents built by the same calls export identical text
     import random
     rng = random.Random(seed)
     from harness import progs
     n_same = 6 if tier == "quick" else 40
-    seeds = [0, 0] if tier == "quick" else [0, 1, 7]
+    seeds = [0] if tier == "quick" else [0, 1, 7]
     same_checked = 0
     for i in range(n_same):
         ops, _ = progs.generate(rng.randrange(1 << 60), rng.randrange(6, 18), "json", observe_each=False)
         ops = [o for o in ops if o[0] not in ("LoadJson",)]
-        texts = [same_calls_texts(ops, hs) for hs in seeds]
+        builds = [same_calls_texts(ops, hs) for hs in seeds]
         same_checked += 1
-        if any(t is None for t in texts):
+        if any(t is None for t in builds):
             res["violations"].append({"kind": "harness-error", "what": "same-calls subprocess failed", "program": ops})
             continue
-        for t in texts[1:]:
-            if t != texts[0]:
-                which = [(i, j) for i, (a, b) in enumerate(zip(texts[0], t)) for j in range(3) if a[j] != b[j]]
+        for hs, (b1, b2) in zip(seeds, builds):
+            if b1 != b2:
+                which = [(i, j) for i, (a, b) in enumerate(zip(b1, b2)) for j in range(3) if a[j] != b[j]]
                 res["violations"].append({"kind": "failing-input", "program": ops,
                                           "failure": {"what": "two documents built by the same calls export different text",
-                                                      "doc_and_format": which[:3], "hashseeds": seeds}})
+                                                      "doc_and_format": which[:3], "hashseed": hs}})
                 break
     res["coverage"]["same_calls_programs"] = same_checked
     res["coverage"]["hashseeds"] = seeds
